@@ -448,6 +448,10 @@ pub struct Sched {
 	pub chunk: (u64, u64),
 	#[serde(default = "max_events")]
 	pub max_events: u64,
+	/// async-lock's mutex fairness heuristic (upstream: REAL elapsed time > 500 us since the waiter
+	/// started => fair strategy).  false: same rule on the virtual clock; true: always fair (slow machine).
+	#[serde(default)]
+	pub lock_starved: bool,
 }
 fn net_us() -> (u64, u64) {
 	(100, 80_000)
